@@ -451,6 +451,10 @@ func RunC15(tier string) int {
 		rep.Exhaustive = false
 	}
 	{
+		mapOrdBudget = 150 * time.Second
+		if thorough {
+			mapOrdBudget = 20 * time.Minute
+		}
 		st := &mapOrdStats{}
 		for _, uid := range []int{0, 65534} {
 			uid := uid
@@ -461,6 +465,9 @@ func RunC15(tier string) int {
 		}
 		rep.Evaluations += st.Runs
 		rep.Extra["map_orders"] = st.summary()
+		if st.Capped {
+			rep.Exhaustive = false
+		}
 		fmt.Printf("  map-order part: archives=%d runs=%d choice points=%d differing=%d\n", st.Tasks, st.Runs, st.Points, st.Differing)
 	}
 	rep.Extra["plans"] = planStats
